@@ -137,7 +137,7 @@ def type_product_job(job):
 
 def run(ctx: core.Ctx) -> core.Report:
     if ctx.quick:
-        plan = [(v, 5) for v in R.VERSIONS]
+        plan = [(v, 5 if v in ("1.4", "2.2") else 4) for v in R.VERSIONS]
         thorough = False
     else:
         plan = [("1.4", 6), ("1.5", 5), ("2.0", 5), ("2.1", 5), ("2.2", 6)]
